@@ -251,8 +251,8 @@ def eval_infix_string(s, sg):
 # the model process (interactive)
 
 class Model:
-    def __init__(self, exe, width, fixed=False):
-        self.p = subprocess.Popen([exe, "step", str(width)] + (["fixed"] if fixed else []),
+    def __init__(self, exe, width):
+        self.p = subprocess.Popen([exe, "step", str(width)],
                                   stdin=subprocess.PIPE, stdout=subprocess.PIPE,
                                   text=True, bufsize=1)
 
@@ -542,7 +542,6 @@ def op_node(op):
     return ("J", "all" if t[1] == "and" else "any", [int(x) for x in t[3:3 + int(t[2])]])
 
 
-SIG_R1 = "exchange-swap-breaks-topological-order"
 SIG_R2 = "flagger-negated-alias-called-simple"
 
 
@@ -554,7 +553,6 @@ def oracle(sq, impl_lines):
     T = tables(nodes, sg)
     allowed = sg.ALL                 # assignments consistent with the replaced constants so far
     probs = []
-    order_lost = False               # R1: topological order lost by a user exchange earlier in the sequence
     pos = 0
     for k, op in enumerate(sq.ops):
         kind = op[0]
@@ -578,31 +576,16 @@ def oracle(sq, impl_lines):
         try:
             if kind in MUTATING:
                 new_nodes, new_vols = parse_tree_line(lines[1])
-                if not topo_sorted(new_nodes) and any(o[0] == "x" and o.split()[2] not in "TF" for o in sq.ops[:k + 1]):
-                    try:
-                        tables(new_nodes, sg)
-                    except Bad:
-                        # R1 can even produce an alias cycle (e.g. 12: ->{12}); nothing can be evaluated
-                        probs.append(("note", "alias-cycle-after-arbitrary-exchange", k))
-                        break
-                newT = tables(new_nodes, sg)
+                try:
+                    newT = tables(new_nodes, sg)
+                except Bad as e:
+                    # alias cycle / dangling id: the documented invariant is gone
+                    probs.append(("topological-order", "tree cannot be evaluated after %r: %s" % (op, e), k))
+                    break
                 if not topo_sorted(new_nodes):
-                    # R1 (NOTES.md): after a user exchange with an arbitrary node the swap-to-lower
-                    # branch can lose the order.
-                    # R3 (NOTES.md, C10_replace_and_simplify_topo_refuted): the same branch loses it
-                    # inside replace_and_simplify/simplify without any user exchange. That is the
-                    # SAME defect of the unchanged code (same signature) exactly when the faithful
-                    # model loses the order on this very op too (its extra check fails: k in
-                    # sq.topo_fail; the printed trees are compared as usual) or the line is the R3
-                    # witness. An order loss the model does not show stays a hard violation.
-                    arbitrary = any(o[0] == "x" and o.split()[2] not in "TF" for o in sq.ops[:k + 1])
-                    inherent = (not arbitrary) and (k in sq.topo_fail or sq.tag == "witness:R3")
-                    probs.append(("note" if (arbitrary or inherent) else "topological-order",
-                                  "topological-order-lost-after-arbitrary-exchange" if arbitrary
-                                  else "topological-order-lost-by-replace-or-simplify-alone-R3" if inherent
-                                  else "tree is not topologically sorted after %r" % op, k))
-                    if arbitrary or inherent:
-                        order_lost = True
+                    # since the repair of exchange (R1/R3, NOTES.md) no generated op can lose the order:
+                    # user exchanges only offer operands/aliases below the node (C10_exchange_sound)
+                    probs.append(("topological-order", "tree is not topologically sorted after %r" % op, k))
                 if kind == "d":
                     # volumes keep their truth table (for every assignment); no negated join remains
                     if len(new_vols) != len(vols):
@@ -703,10 +686,6 @@ def oracle(sq, impl_lines):
                             kind = ("known:" + SIG_R2) if _negated_alias(nodes, nid) else "simple-flag"
                             probs.append((kind, "node %d is flagged free of internal surfaces but stays true when face %d flips" % (nid, f), k))
                             break
-            if order_lost:
-                # semantic consequences of the lost order are finding R1, not new violations
-                probs = [(("known:" + SIG_R1) if (p[0] not in ("note",) and not p[0].startswith("known:") and p[2] == k) else p[0],
-                          p[1], p[2]) for p in probs]
         except (Bad, AttributeError, ValueError, IndexError, AssertionError, KeyError, TypeError) as e:
             # the implementation printed something that cannot be interpreted for this op
             probs.append(("malformed", "%s: %s after %r" % (type(e).__name__, e, op), k))
@@ -954,7 +933,7 @@ def run(ctx):
     ntok = 3000 if quick else 40000
     r = ctx.rng
     ctx.trusted += [
-        "hand-written Gallina model coq/C10/{Csg,Logic,DeMorgan,Sense}.v (CsgFixed.v/RunFixed.v iff the exchange repair is in the source under test) tied to liborange by the exact op-sequence differential (props/C10/run.py, harness/csg.cc, driver.ml)",
+        "hand-written Gallina model coq/C10/{Csg,CsgFixed,Logic,DeMorgan,Sense}.v tied to liborange by the exact op-sequence differential (props/C10/run.py, harness/csg.cc, driver.ml)",
         "Coq extraction to OCaml (ExtrOcamlBasic) and the parse/print glue props/C10/driver.ml",
         "std::unordered_map / std::hash (modelled as an association list with first-match lookup), std::sort / std::unique / find_sorted (modelled as sorted-unique insertion and linear search)",
         "independent Python evaluator of printed trees (property oracle)",
@@ -999,19 +978,19 @@ def run(ctx):
     rc, wout = ctx.run_harness(exe, ["width"])
     width = int(wout.strip())
     ctx.count("logic-stack-width-%d" % width)
-    # Which CsgTree::exchange is under test? The candidate repair of findings R1/R3 (NOTES.md) adds the
-    # visitor AreOperandsBelow to CsgTree.cc; with it the model is coq/C10/CsgFixed.v (theorems:
-    # coq/C10/CsgFixedProofs.v, PropertiesFixed.v) and the R1/R3 witnesses must NOT reproduce any more.
+    # The model is the code as it is since the repair of findings R1/R3 (/repo d70f3c2: visitor
+    # AreOperandsBelow in CsgTree.cc; model coq/C10/CsgFixed.v). If the repair is missing from the source
+    # under test, the @R1/@R3 corpus lines lose the topological order on the real code again and are
+    # reported as VIOLATIONs (oracle `topological-order` + correspondence), not as a known finding.
     try:
         repaired = "AreOperandsBelow" in open(os.path.join(vlib.REPO, "src", "orange", "orangeinp", "CsgTree.cc")).read()
     except OSError:
         repaired = False
-    if repaired:
-        ctx.count("exchange-repair-detected:model=CsgFixed.v")
-        ctx.notes.append("CsgTree.cc contains the repair of R1/R3 (AreOperandsBelow): the differential uses the model "
-                         "coq/C10/CsgFixed.v; Properties_C10.v's *_refuted theorems R1/R3 describe the unrepaired code "
-                         "(swap in coq/C10/PropertiesFixed.v)")
-    model = Model(model_exe, width, fixed=repaired)
+    if not repaired:
+        ctx.count("exchange-repair-MISSING-from-source")
+        ctx.notes.append("CsgTree.cc does not contain the repair of R1/R3 (AreOperandsBelow): expect the @R1/@R3 "
+                         "witnesses to be reported as violations")
+    model = Model(model_exe, width)
     seqs = []
     for f in sorted(glob.glob(os.path.join(HERE, "corpus", "*.txt"))):
         for line in open(f):
@@ -1055,7 +1034,7 @@ def run(ctx):
             ctx.violation("crash", "the implementation crashed (rc=%s) on a sequence the model accepts" % impl[1]
                           if not forced else "the implementation crashed (rc=%s) after the topological order was lost" % impl[1],
                           dict(replay, partial_output=impl[2][-5:]),
-                          signature=SIG_R1 if (forced and sq.tag in ("witness:R1", "witness:R3")) else None)
+                          signature=None)
             if not forced:
                 nviol += 1
             continue
@@ -1072,21 +1051,16 @@ def run(ctx):
             wid = sq.tag.split(":")[1]
             try:
                 if wid in ("R1", "R3"):
-                    rep_ok = any(not topo_sorted(parse_tree_line(l)[0]) for l in impl if l.startswith("t "))
-                    if repaired:
-                        # with the repair the witnesses are ordinary sequences: the order must be kept
-                        ctx.count("witness-%s-%s" % (wid, "gone-with-repair" if not rep_ok else "STILL-reproduced-with-repair"))
-                        if rep_ok:
-                            ctx.violation("topological-order", "witness %s still loses the topological order with the repair" % wid,
-                                          dict(replay))
-                            nviol += 1
-                        rep_ok = True
+                    # fixed findings: the former witnesses must keep the order now (a loss is reported
+                    # by the oracle below as a `topological-order` VIOLATION with this sequence)
+                    lost = any(not topo_sorted(parse_tree_line(l)[0]) for l in impl if l.startswith("t "))
+                    ctx.count("witness-%s-%s" % (wid, "REPRODUCED-AGAIN:repair-missing-or-broken" if lost else "gone-since-repair"))
+                    rep_ok = True
                 else:
                     rep_ok = "g 0" in impl and any(l.startswith("s !all(") for l in impl)
+                    ctx.count("witness-%s-%s" % (wid, "reproduced-on-real-code" if rep_ok else "NOT-reproduced"))
             except Exception:
                 rep_ok = False
-            if not (repaired and wid in ("R1", "R3")):
-                ctx.count("witness-%s-%s" % (wid, "reproduced-on-real-code" if rep_ok else "NOT-reproduced"))
             if not rep_ok:
                 ctx.notes.append("refutation witness %s no longer reproduces on the code: the _refuted theorem and NOTES.md need an update" % wid)
         probs = oracle(sq, impl)
